@@ -157,6 +157,14 @@ class MemOS(object):
             @staticmethod
             def isdir(p):
                 return False
+
+            def __getattr__(self_inner, name):
+                # purely lexical helpers (normpath, split, ...) are the real ones; anything that would ask the real file system is refused
+                if name in ("normpath", "abspath", "split", "splitext", "isabs", "relpath", "commonprefix", "sep"):
+                    return getattr(os.path, name)
+                if NATIVE:
+                    raise AttributeError(name)
+                raise core.Inconclusive("os.path.%s is not part of the in-memory file layer" % name)
         self.path = P()
         self.mem = fs
 
@@ -261,7 +269,11 @@ def make_content(nlines, maxlen):
         en.note_sample(case)
         if all(len(x) == 0 for x in lines):
             raise core.Abort()        # an all-empty spec is not persisted at all (C10)
-        prov, doc, back, content, fs = roundtrip(kind, lines, save_as, ds_path)
+        try:
+            prov, doc, back, content, fs = roundtrip(kind, lines, save_as, ds_path)
+        except Exception as ex:  # noqa   (engine exceptions are BaseExceptions and pass through)
+            en.must_hold(False, "content-roundtrip", case, detail="persisting and loading the result raised %r" % (ex,))
+            return
         outside_ = [p_ for p_ in fs.files if not p_.startswith("/out/data/")]
         en.must_hold(not outside_, "content-roundtrip", case, detail="the content was written to %s, outside the data directory of the archive" % outside_)
         eqs = []
@@ -491,7 +503,17 @@ def build_specs():
     return Specs
 
 
-def corrupt_run(faults, order, history=False):
+def _failing_provider(lines, rel):
+    """a datasource result of the registered provider class whose write fails (serializers are looked up by the exact class)"""
+    prov = SF.DatasourceProvider(lines, rel)
+
+    def write(dst):
+        raise ValueError("disk full while writing this element")
+    prov.write = write
+    return prov
+
+
+def corrupt_run(faults, order, history=False, element_fails=False):
     """dehydrate a, b (multi-output), c (failed), d then corrupt the metadata entries as requested and hydrate into a fresh broker"""
     root = tempfile.mkdtemp(prefix="c11_")
     try:
@@ -501,7 +523,8 @@ def corrupt_run(faults, order, history=False):
         Specs = build_specs()
         broker = dr.Broker()
         broker[Specs.a] = SF.DatasourceProvider(["alpha one", "alpha two"], "a_file")
-        broker[Specs.b] = [SF.DatasourceProvider(["first element"], "b_first"), SF.DatasourceProvider(["second element"], "b_second")]
+        broker[Specs.b] = [SF.DatasourceProvider(["first element"], "b_first"),
+                           (_failing_provider if element_fails else SF.DatasourceProvider)(["second element"], "b_second")]
         broker[Specs.d] = SF.DatasourceProvider(["delta"], "d_file")
         ex = ValueError("collection of c failed")
         broker.add_exception(Specs.c, ex, "Traceback (most recent call last): ... ValueError: collection of c failed")
@@ -511,6 +534,13 @@ def corrupt_run(faults, order, history=False):
         meta = os.path.join(root, "meta_data")
         names = {"a": dr.get_name(Specs.a), "b": dr.get_name(Specs.b), "c": dr.get_name(Specs.c), "d": dr.get_name(Specs.d)}
         bad = []
+        if element_fails:
+            # one element of the multi-output result could not be written: the component is persisted with that error (each item of
+            # "errors" is one traceback text) and with the elements that could be written
+            bdoc = json.load(open(os.path.join(meta, names["b"] + ".json")))
+            errs = bdoc.get("errors")
+            if not (isinstance(errs, list) and errs and all(isinstance(e_, str) for e_ in errs) and any("disk full" in e_ for e_ in errs)):
+                bad.append("the failing element's error is not persisted as a traceback text in the component's errors: %r" % (errs if not isinstance(errs, list) else [type(e_).__name__ for e_ in errs],))
         cpath = os.path.join(meta, names["c"] + ".json")
         if not os.path.exists(cpath) or "collection of c failed" not in open(cpath).read():
             bad.append("the failed component was not persisted with its errors")
@@ -565,7 +595,7 @@ def corrupt_run(faults, order, history=False):
             if fault == "intact" and present:
                 v = fresh[comp]
                 got = [x.content for x in v] if isinstance(v, list) else v.content
-                exp = {"a": ["alpha one", "alpha two"], "b": [["first element"], ["second element"]], "d": ["delta"]}[key]
+                exp = {"a": ["alpha one", "alpha two"], "b": [["first element"]] if element_fails else [["first element"], ["second element"]], "d": ["delta"]}[key]
                 if got != exp:
                     bad.append("entry %s loaded as %r" % (key, got))
             if fault not in ("intact",) and present and fault != "data-file-missing":
@@ -592,9 +622,10 @@ def make_corrupt():
             faults = [FAULTS[en.choice("fault_%s" % k, len(FAULTS))] for k in "abd"]
             order = en.choice("listing_rotation", 4)
             history = en.flag("earlier_lookup") if all(f in ("intact", "deleted") for f in faults) else False
-            case = lambda mv: {"kind": "corrupt", "faults": faults, "order": order, "history": history}  # noqa
+            element_fails = en.flag("element_fails") if all(f == "intact" for f in faults) else False
+            case = lambda mv: {"kind": "corrupt", "faults": faults, "order": order, "history": history, "element_fails": element_fails}  # noqa
             en.note_sample(case)
-            bad = corrupt_run(faults, order, history)
+            bad = corrupt_run(faults, order, history, element_fails)
             en.must_hold(not bad, "corruption-tolerated", case, detail=bad)
     return fn
 
@@ -669,7 +700,7 @@ def _native(case):
         lines = boundary_lines(case["n"], case["k"], lambda i: case["special"][str(i)])
         sub = {"kind": "content", "provider": case["provider"], "save_as": None, "lines": lines}
         return [b if len(b) < 300 else b[:300] + "..." for b in _native(sub)]
-    return corrupt_run(case["faults"], case.get("order", 0), case.get("history", False))
+    return corrupt_run(case["faults"], case.get("order", 0), case.get("history", False), case.get("element_fails", False))
 
 
 def validate(tier):
